@@ -180,8 +180,8 @@ impl Scenario for C02 {
 
     fn runs(tier: Tier) -> u64 {
         match tier {
-            Tier::Quick => 60_000,
-            Tier::Thorough => 1_000_000,
+            Tier::Quick => 200_000,
+            Tier::Thorough => 2_500_000,
         }
     }
     fn rule() -> &'static str {
